@@ -190,6 +190,10 @@ class _DeferredLine:
         else:
             self._mod_name = module_globals.get('__name__')
             self._mod_loader = module_globals.get('__loader__')
+            if self._mod_loader is None:
+                # like linecache: fall back on the loader of the spec
+                spec = module_globals.get('__spec__')
+                self._mod_loader = getattr(spec, 'loader', None)
 
     def __eq__(self, other):
         return (self.lineno, self.filename) == (other.lineno, other.filename)
